@@ -941,13 +941,14 @@ impl ty::TyExpression {
                 });
             }
 
-            //...but still check the arms above it for reachability
+            //...but still check the arms above it, and the catch-all arm itself,
+            // for reachability: the arms above it can already be exhaustive
             check_interior_non_catch_all_arms_for_reachability(
                 handler,
                 engines,
                 type_id,
                 value,
-                &arms_reachability[..catch_all_arm_position],
+                &arms_reachability[..=catch_all_arm_position],
             );
         }
         // if there are no interior catch-all arms and there is more than one arm
@@ -1043,7 +1044,7 @@ impl ty::TyExpression {
                             ),
                             unreachable_arm: reachable_report.scrutinee.span.clone(),
                             is_last_arm: false,
-                            is_catch_all_arm: false,
+                            is_catch_all_arm: reachable_report.scrutinee.is_catch_all(),
                         },
                     });
                 }
